@@ -1,4 +1,5 @@
 import LexgenModel.Proofs.NextMore
+import LexgenModel.Proofs.RefRefine
 import LexgenModel.Proofs.EndToEnd
 /-!
 # C08 — After a failure the lexer resumes past the bad text, in Init, and stays there
@@ -34,5 +35,16 @@ theorem C08_reset_to_init_compiled (items : LexerDef) (c : Compiled) (h : compil
     (hn : next (c.config actions width input) st = some (some (.invalid l), st')) :
     st'.state = 0 ∧ st'.initial = 0 ∧ st'.curStart = st'.curEnd ∧ st'.last = none :=
   next_invalid _ (compileLexer_machineOK items c h hok actions width input) st hr l st' hn
+
+/-- Recovery at the language level: after `RefNext.invalid` the state satisfies `ErrResume` (state 0 = `Init` active, empty match,
+nothing saved, user state untouched, at least one character consumed unless the input ended), so the next call is again a
+reference step from `Init`. -/
+theorem C08_refines_reference (items : LexerDef) (c : Compiled) (h : compileLexer items = .ok c) (hok : DefOK items)
+    (ctxAt : Nat → Regex) (hnum : CtxNumbering items ctxAt)
+    (actions : Nat → Action σ τ ε) (width : Nat → Nat) (input : Option (List Nat))
+    (st : LState σ) (hr : Ready (c.config actions width input) st)
+    (r : Option (Item τ ε) × LState σ) (hn : next (c.config actions width input) st = some r) :
+    RefNext items c ctxAt (c.config actions width input) st r :=
+  next_refines_ref items c h hok ctxAt hnum actions width input st hr r hn
 
 end Lexgen
